@@ -36,12 +36,13 @@ Theorem C01_src_wiring :
 Proof. apply wiring_okb_sound. vm_compute. reflexivity. Qed.
 Print Assumptions C01_src_wiring.
 
-(* run_pipeline iterates model_group_names = MODEL_GROUPS (as does __iter__) and skips a group of the
+(* run_pipeline iterates MODEL_GROUPS (the translator follows the trivial property model_group_names; which
+   accessor is spelled in the source is not pinned), as does __iter__, and skips a group of the
    order only when it is absent (no branch on the detector type, the step, the debug flag ...); a
    group yields its enabled models only; run loops over the group itself (not over a remembered
    list); a model gets (detector, **arguments) *)
 Theorem C01_src_iteration :
-  src_iterated_by = [("Processor.run_pipeline", "model_group_names");
+  src_iterated_by = [("Processor.run_pipeline", "MODEL_GROUPS");
                      ("DetectionPipeline.model_group_names", "MODEL_GROUPS");
                      ("DetectionPipeline.__iter__", "MODEL_GROUPS")]%string /\
   src_run_pipeline_skips = ["absent"]%string /\
